@@ -1,4 +1,5 @@
 """C13 - wait_for_condition threads its state through polls and stops when told to."""
+import copy
 import random
 
 from checks.direct_strategies import run_wait_direct
@@ -35,7 +36,32 @@ def explicit(tier, seed):
                     i += 1
 
 
+def initial_and_shared_state_cases(tier, seed):
+    """(a) the FIRST poll gets the configured initial state itself, whatever the serdes would make of it (a tuple / int-keyed dict
+    with a JSON serdes); (b) several conditions in one process pass through EQUAL states that their checks update in place."""
+    i = 0
+    for serdes in ("json", "tagged", None):
+        for init in ((0, 10), {"window": (0, 10)}, {1: "a"}, [1, (2, 3)]):
+            if serdes is None and isinstance(init, dict) and 1 in init:
+                continue  # int keys are outside the default serializer's domain
+            checks = [{"do": "ok", "val": [1]}, {"do": "ok", "val": {"a": 2}}, {"do": "ok", "val": "done"}]
+            node = {"k": "wfc", "init": init, "checks": checks, "decisions": [("cont", 1), ("cont", 1), ("stop",)], "serdes": serdes}
+            yield {"label": "wfc-initial-state-as-configured", "prog": {"body": [node, {"k": "step", "val": "after"}]}, "prog_seed": 7950 + i,
+                   "pattern": {"p": "crash_enum", "max_points": 10} if i % 3 == 0 else {"p": "plain"}}
+            i += 1
+    for kind in ("par", "map"):
+        for init in ([], {"n": 0}, ["s"]):
+            for warm in (False, True):
+                br = {"body": [{"k": "wfc", "init": init, "checks": [{"do": "ok", "fn": "mutate"}], "decisions": [("cont", 1), ("cont", 1), ("stop",)]}]}
+                node = {"k": "par", "branches": [copy.deepcopy(br) for _ in range(3)], "cfg": {"preset": "all_completed"}} if kind == "par" else \
+                    {"k": "map", "items": [0, 1, 2], "body": br["body"], "cfg": None}
+                yield {"label": "wfc-equal-states-in-several-branches", "prog": {"body": [node, {"k": "step", "val": "after"}]}, "prog_seed": 7980 + i,
+                       "pattern": {"p": "plain"}, "opts": {"warm": warm}}
+                i += 1
+
+
 def explicit_all(tier, seed):
+    yield from initial_and_shared_state_cases(tier, seed)
     yield from explicit(tier, seed)
     # a check that fails on poll n with each class of error (incl. the SDK's own "unrecoverable" family, which applications derive
     # from); the workflow catches it, continues and is re-invoked: the failure must be on record, the check never polled again
